@@ -475,7 +475,7 @@ func (iv integerValue) ToString(b io.Writer, s px.FormatContext, g px.RDetect) {
 		if err == nil {
 			_, err = io.WriteString(b, intString)
 		}
-	case 'e', 'E', 'f', 'g', 'G', 'a', 'A':
+	case 'e', 'E', 'f', 'g', 'G':
 		floatValue(iv.Float()).ToString(b, px.NewFormatContext(DefaultFloatType(), f, s.Indentation()), g)
 	case 'c':
 		bld := bytes.NewBufferString(``)
@@ -485,7 +485,7 @@ func (iv integerValue) ToString(b io.Writer, s px.FormatContext, g px.RDetect) {
 		f.ApplyStringFlags(b, strconv.Itoa(int(int64(iv))), f.IsAlt())
 	default:
 		//noinspection SpellCheckingInspection
-		panic(s.UnsupportedFormat(iv.PType(), `dxXobBeEfgGaAspc`, f))
+		panic(s.UnsupportedFormat(iv.PType(), `dxXobBeEfgGspc`, f))
 	}
 	if err != nil {
 		panic(err)
